@@ -18,11 +18,11 @@ CHECKS = {
    text="Plain graph compared with the reference structure; Reversed() must flip lines and direction only; DOT stable across double reversal, rebuilds and fresh processes; label lookup and path queries against reference reachability for all label pairs; cycle flags through a hook, in both directions (a reported compile-time cycle needs a cycle of computed usersets only).",
    note="Operator nodes are matched through gonum node ids (creation order); cycle queries only on models with <= 12 nodes on cycles.", ref="5/C17"),
  "C18": dict(cat="exploration", tech="decomposition-predicate monitor over exhaustive class-representative strings, boundary lengths and random Unicode; run-time constants vs. JS/Java source strings",
-   text="All strings up to length 3 over 16 representatives plus length 4 over 9 classes (quick) / length 5 (thorough), boundary lengths around every limit with 1- to 4-byte characters, long mixed-width strings, random Unicode, through all 9 validators and the predicate (soundness and completeness); rule strings compared with the JS and Java sources.",
+   text="All strings up to length 3 over 16 representatives plus length 4 over 9 classes (quick) / length 5 (thorough), boundary lengths around every limit with 1- to 4-byte characters, long mixed-width strings, every code point below U+0180 in every slot of type / id / relation, random Unicode, through all 9 validators and the predicate (soundness and completeness); the single-field validators compared with the shared rule strings evaluated directly; rule strings compared with the JS and Java sources.",
    note="'identical to JS and Java' is decided on the rule strings as artefacts; JS/Java are not executed (cannot be built offline).", ref="5/C18"),
- "C19": dict(cat="translation_validation", tech="artefact conformance (ATN arrays, vocabularies, listener method set) + Earley recogniser on the .g4 vs. the real generated parser on generated and grammar-derived texts; parse-tree conformance monitor",
-   text="Serialized ATNs of Go/JS/Java/.interp decoded and compared and deserialized; sequences of state and prediction-decision numbers in the three generated parser sources compared; name tables compared with each other, the live recogniser and both .g4 files; every literal of the literal-only lexer rules lexed by the real lexer; for 10^4-10^5 texts incl. one shortest sentence per grammar production: grammar accepts <=> generated parser accepts, and every rule node of the tree the generated Go parser built is a derivation step of the .g4 (Earley on the tree grammar).",
-   note="Trusted: .g4 reader and Earley recogniser (internal/g4); lexer grammar edits of character-class rules that keep all names are out of reach (DESIGN 8).", ref="5/C19"),
+ "C19": dict(cat="translation_validation", tech="artefact conformance (ATN arrays, vocabularies, listener method set) + Earley recogniser on the .g4 vs. the real generated parser on generated and grammar-derived texts; parse-tree conformance monitor; token-by-token monitor of the real generated lexer against an executable reading of OpenFGALexer.g4 (longest match, first rule, modes)",
+   text="Serialized ATNs of Go/JS/Java/.interp decoded and compared and deserialized; sequences of state and prediction-decision numbers in the three generated parser sources compared; name tables compared with each other, the live recogniser and both .g4 files; every literal of the literal-only lexer rules lexed by the real lexer; for 10^4-10^5 texts incl. one shortest sentence per grammar production: grammar accepts <=> generated parser accepts, and every rule node of the tree the generated Go parser built is a derivation step of the .g4 (Earley on the tree grammar); every token (type, extent, channel) and every recognition error of the real generated lexer on those texts, on all strings up to length 2 over the grammar's boundary alphabet in both modes and on 10^4-10^5 random strings equals what OpenFGALexer.g4 on disk prescribes (10^6-10^7 tokens).",
+   note="Trusted: .g4 readers, Earley recogniser and the executable lexer semantics (internal/g4); non-greedy lexer loops are not modelled (inputs reaching one are skipped and counted).", ref="5/C19"),
  "C01": dict(cat="exploration", tech="round-trip monitor d->M1->D1->M2->D2->M3->D3 on both API paths over generated, corpus and mutated DSL",
    text="Every accepted full-model text among 10^4-10^6 generated layouts, corpus files and accepted token-level mutants is pushed through render/parse three times on the in-memory and the JSON-string path; equality and byte stability are asserted on each.",
    note="Trusted: proto.Equal; reading of 'modulo surrounding/trailing whitespace' in DESIGN 7-a.", ref="5/C01"),
